@@ -910,6 +910,33 @@ def a_r5_recomputed_and_picklable(schema: Schema, rep: Report):
     rep.check("A-R6", "utils.UTC:class-at-module-level", bad is None, f"utils.UTC can be an instance of {bad[0]}, a class defined inside a function: pickle raises \"Can't pickle local object\" for every model holding a date or time" if bad else "", f"{m.relpath}:{bad[1].lineno if bad else 1}")
 
 
+def a_r6b_classes_defined_where_they_live(schema: Schema, rep: Report):
+    """pickle finds a class by module and name"""
+    from .source import Func as _Func
+
+    rep.rule("A-R6b", "every model class is picklable by reference: a module-level name of a models module that is bound to a class built by a FACTORY (`X = make(\"X\", ..)` whose body returns type(name, bases, ns)) gets the `__module__` of the module type() was called in - the factory's, where the name is not bound - unless the namespace sets `__module__`: pickle.dumps of any model holding such an aggregate fails with `attribute lookup X on <factory module> failed` (copy / deepcopy still work)")
+    p = schema.p
+    n = 0
+    for modname, m in sorted(p.modules.items()):
+        if not modname.startswith("ofxtools.models"):
+            continue
+        for st in m.tree.body:
+            if not (isinstance(st, ast.Assign) and len(st.targets) == 1 and isinstance(st.targets[0], ast.Name) and isinstance(st.value, ast.Call)):
+                continue
+            callee = st.value.func
+            r = p.resolve(modname, callee.id) if isinstance(callee, ast.Name) else None
+            if not isinstance(r, _Func) or r.module == modname:
+                continue
+            makes = [x for x in ast.walk(r.node) if isinstance(x, ast.Call) and isinstance(x.func, ast.Name) and x.func.id == "type" and len(x.args) == 3]
+            if not makes:
+                continue
+            n += 1
+            sets_module = any(isinstance(x, ast.Constant) and x.value == "__module__" for mk in makes for x in ast.walk(mk.args[2])) or any(isinstance(x, ast.Attribute) and x.attr == "__module__" and isinstance(getattr(x, "ctx", None), ast.Store) for x in ast.walk(r.node))
+            rep.check("A-R6b", f"{modname}:{st.targets[0].id}:defined-where-it-lives", sets_module, f"{st.targets[0].id} is built by {r.module}.{callee.id}() through type(): its __module__ is {r.module}, where no `{st.targets[0].id}` exists - pickling a model that holds one fails" if not sets_module else "", f"{m.relpath}:{st.lineno}")
+    rep.unit("factory_built_classes", n)
+    rep.check("A-R6b", "models:classes-defined-where-they-live", True, "", f"{n} factory-built classes")
+
+
 def a_r9_default_copy_protocol(schema: Schema, rep: Report):
     """copy / deepcopy / pickle reproduce the instance as it is"""
     rep.rule("A-R9", "copy, deepcopy and pickle reproduce an equal model through the default protocol (the instance dict and the list members, untouched): no model class - Aggregate included - defines __reduce__ / __reduce_ex__ / __copy__ / __deepcopy__ / __getnewargs(_ex)__ / __setstate__ that sends the stored values through the class constructor again (values would be converted a second time - `&amp;amp;` decoded twice - and whatever lives only in the instance dict, such as the stapled trnuid / cltcookie, would be lost)")
@@ -961,3 +988,58 @@ def a_r9_default_copy_protocol(schema: Schema, rep: Report):
                 rep.note(f"A-R9 undecided: {ci.name} defines {hook}; whether it reproduces the instance was not decided")
     if n == 0:
         rep.check("A-R9", "models:default-copy-protocol", True, "no model class customises copying / pickling", "")
+
+
+def a_r3c_statement_shortcut_of_every_statement_wrapper(schema: Schema, rep: Report):
+    """the wrapper of a statement answers .statement with the statement"""
+    from .fold import fold
+    from .source import UNK
+
+    rep.rule("A-R3c", "every response wrapper whose own sub-aggregate is a statement (<X>STMT[END]TRNRS with the single child <x>stmt[end]rs) answers `.statement` with that child, wherever the property is defined: a direct `return self.<child>`, or a generic property of a base class whose selection test (name.endswith(..) / in / ==) - folded for the child's own name - picks it.  A generic `endswith('stmtrs')` picks stmtrs, ccstmtrs, invstmtrs but not ccstmtendrs: CCSTMTENDTRNRS.statement then raises AttributeError (hasattr False) although the closing statement is there")
+    n = 0
+    # the wrappers that HAVE the shortcut on the tree this checker was written against (confirmed by reading; STMTENDTRNRS
+    # has none - its statement is read as .stmtendrs): the reference for later changes
+    HAVE = ("STMTTRNRS", "CCSTMTTRNRS", "CCSTMTENDTRNRS", "INVSTMTTRNRS")
+    for cname, ci in sorted(schema.exported().items()):
+        if cname not in HAVE:
+            continue
+        own = [nm for nm, ch in schema.spec(ci).items() if ch.kind == "SubAggregate" and ch.owner is ci and "stmt" in nm and nm.endswith("rs")]
+        if len(own) != 1:
+            continue
+        child = own[0]
+        definer = ci.definer("statement")
+        if definer is None:
+            rep.check("A-R3c", f"{cname}.statement->{child}", False, f"{cname} has no `statement` shortcut although it wraps {child.upper()}", f"{ci.mod.relpath}:{ci.node.lineno}")
+            continue
+        fn = definer.own_func("statement")
+        if fn is None:
+            continue
+        n += 1
+        rets = [r for r in ast.walk(fn) if isinstance(r, ast.Return) and r.value is not None]
+        direct = any(text(r.value) == f"self.{child}" for r in rets)
+        if direct:
+            rep.check("A-R3c", f"{cname}.statement->{child}", True, "", f"{definer.mod.relpath}:{fn.lineno}")
+            continue
+        # generic form: for <n> in self.subaggregates: if <test(n)>: return getattr(self, n)
+        verdict = None
+        for lp in [x for x in ast.walk(fn) if isinstance(x, ast.For) and isinstance(x.target, ast.Name) and "subaggregates" in text(x.iter)]:
+            for iff in [x for x in ast.walk(lp) if isinstance(x, ast.If)]:
+                if not any(isinstance(r, ast.Return) for r in ast.walk(iff)):
+                    continue
+                t = iff.test
+                val = UNK
+                if isinstance(t, ast.Call) and isinstance(t.func, ast.Attribute) and text(t.func.value) == lp.target.id and t.func.attr in ("endswith", "startswith") and t.args:
+                    a0 = fold(t.args[0], {}, schema.p, definer.module)
+                    if isinstance(a0, (str, tuple)):
+                        val = getattr(child, t.func.attr)(a0)
+                elif isinstance(t, ast.Compare) and len(t.ops) == 1 and text(t.left) == lp.target.id:
+                    rhs = fold(t.comparators[0], {}, schema.p, definer.module)
+                    if rhs is not UNK:
+                        val = (child in rhs) if isinstance(t.ops[0], ast.In) and isinstance(rhs, (tuple, list, str)) else ((child == rhs) if isinstance(t.ops[0], ast.Eq) else UNK)
+                if val is not UNK:
+                    verdict = bool(val) if verdict is None else (verdict or bool(val))
+        if verdict is None:
+            rep.note(f"A-R3c undecided: how {definer.name}.statement selects the statement of {cname} was not recognised")
+        else:
+            rep.check("A-R3c", f"{cname}.statement->{child}", verdict, f"{definer.name}.statement selects the wrapped statement by a test on the child's name that `{child}` does not pass: {cname}.statement raises AttributeError (hasattr False, getattr default) although {child.upper()} is present" if not verdict else "", f"{definer.mod.relpath}:{fn.lineno}")
+    rep.floor("A-R3c", n, 4, "statement wrappers")
